@@ -318,12 +318,19 @@ class ConvolvedFluxes(object):
             # same units as the current ones for the interpolation, and we need
             # to add the flux unit back.
 
+            # The requested apertures have been checked against the tabulated
+            # range above; the clipping only removes the round-off of the unit
+            # conversion (e.g. an aperture reset to the maximum in AU that is
+            # one ulp above the maximum once converted back to the table's unit)
+            x_new = np.clip(c.apertures.to(self.apertures.unit).value,
+                            self.apertures.min().value, self.apertures.max().value)
+
             flux_interp = interp1d(self.apertures, self.flux)
-            c.flux = flux_interp(c.apertures.to(self.apertures.unit)) * self.flux.unit
+            c.flux = flux_interp(x_new) * self.flux.unit
 
             # The following is not strictly correct - errors from interpolation is not interpolation of errors
             error_interp = interp1d(self.apertures, self.error)
-            c.error = error_interp(c.apertures.to(self.apertures.unit)) * self.error.unit
+            c.error = error_interp(x_new) * self.error.unit
 
         else:
 
